@@ -23,6 +23,7 @@ Contracts:
 * `<String|str as Index<RangeFull>>::index`: the whole string as `&str`.
 * `<Vec<T> as DerefMut>::deref_mut`: the mutable slice is the reference to the vector itself.
 * `Vec::last_mut` / `<[T]>::last_mut`: `None` for an empty vector, else a reference to the last slot.
+* lazily shaped vectors (`lazy_vec`): see the section below; every `Vec` model first decides the shape.
 * `char::len_utf8` (override of the models_text one): when the character was produced by the `Chars` model
   on this path from a lead byte whose width class has already been decided, the width is that class — which
   is what `len_utf8` returns for every scalar value of a well-formed sequence of that width; the model
@@ -220,7 +221,17 @@ def m_index_full(it, ctx, callee, args):
 # ------------------------------------------------------------------------------------------
 # Vec / slice
 
-@model(r"<Vec<.*> as (std::ops::|core::ops::)?DerefMut>::deref_mut|Vec::as_mut_slice")
+def tail_model(pat):
+    def deco(fn):
+        MODELS_LEX_TAIL.append((re.compile(pat), fn))
+        return fn
+    return deco
+
+
+MODELS_LEX_TAIL = []
+
+
+@tail_model(r"<Vec<.*> as (std::ops::|core::ops::)?DerefMut>::deref_mut|Vec::as_mut_slice")
 def m_vec_deref_mut(it, ctx, callee, args):
     # `&mut [T]` is represented by the reference to the vector itself (writes go through to its slots)
     if not isinstance(args[0], Ref):
@@ -228,7 +239,8 @@ def m_vec_deref_mut(it, ctx, callee, args):
     return args[0]
 
 
-@model(r"Vec::last_mut|core::slice::<impl \[.*\]>::last_mut")
+@model(r"core::slice::<impl \[.*\]>::last_mut")
+@tail_model(r"Vec::last_mut|core::slice::<impl \[.*\]>::last_mut")
 def m_last_mut(it, ctx, callee, args):
     r = args[0]
     if not isinstance(r, Ref):
@@ -286,12 +298,85 @@ def m_len_utf8(it, ctx, callee, args):
 
 
 # ------------------------------------------------------------------------------------------
+# lazily shaped vectors (used by the step harness of C06/C16 for `Lexer::open_braces`)
+#
+# A harness that starts the real code in an *arbitrary* state satisfying an invariant wants "a vector of 0, 1 or 2
+# symbolic elements".  Forking over the shape up-front would multiply every path by the number of shapes although
+# most paths never touch the vector; a lazy vector forks over its shape at the first access instead.
+
+def lazy_vec(sel, variants):
+    """sel: Int (symbolic selector, constrained by the harness to 0..len(variants)-1); variants[k]: the VecV the
+    vector is when sel == k"""
+    return Opaque("lazyvec", (sel, tuple(variants)))
+
+
+def is_lazy(v):
+    return isinstance(v, Opaque) and v.what == "lazyvec"
+
+
+def materialise(ctx, ref):
+    """decides the shape of the lazy vector `ref` points to (forks), replacing it in place; no-op otherwise"""
+    r = ref
+    if not isinstance(r, Ref):
+        return
+    v = get_path(r.cell.v, r.path)
+    while isinstance(v, Ref):
+        r = v
+        v = get_path(r.cell.v, r.path)
+    if is_lazy(v):
+        sel, variants = v.payload
+        k = ctx.concretize(sel, 0, len(variants), "shape of a lazy vector")
+        write_ref(r, variants[k])
+
+
+def _base_model(callee):
+    from .interp import canon_callee
+    from . import models as M0
+    key = canon_callee(callee)
+    for pat, fn in MODELS_LEX_TAIL + MT.MODELS_TEXT + M0.MODELS:
+        if pat.fullmatch(key):
+            return fn
+    raise Inconclusive("no base model for " + callee)
+
+
+@model(r"Vec::(push|pop|len|is_empty|last|last_mut|clear|iter|as_slice)|<Vec<.*> as (std::ops::|core::ops::)?(Deref|DerefMut)>::(deref|deref_mut)")
+def m_vec_maybe_lazy(it, ctx, callee, args):
+    materialise(ctx, args[0])
+    return _base_model(callee)(it, ctx, callee, args)
+
+
+# ------------------------------------------------------------------------------------------
 
 class LexInterp(MT.TextInterp):
     """TextInterp + resolution of promoted constants of methods of types with a lifetime parameter: the
     dump refers to them as `lexer::Lexer::<'_>::m::promoted[i]` and defines them as
     `lexer::<impl at …>::m::promoted[i]` (normalised to `Lexer::m::promoted[i]`)."""
 
+    def __init__(self, prog, models, extra_progs=()):
+        MT.TextInterp.__init__(self, prog, models, extra_progs)
+        self._fn_cache, self._closure_cache, self._lit_cache = {}, {}, {}
+
     def lookup_const(self, fr, name):
         n2 = re.sub(r"::<'[\w_]+(, *'[\w_]+)*>", "", name)
         return MT.TextInterp.lookup_const(self, fr, n2)
+
+    # pure caches (the program is immutable; string literal values are immutable Slices)
+    def find_fn(self, name, nargs):
+        k = (name, nargs)
+        if k not in self._fn_cache:
+            self._fn_cache[k] = MT.TextInterp.find_fn(self, name, nargs)
+        return self._fn_cache[k]
+
+    def closure_body(self, cname):
+        if cname not in self._closure_cache:
+            self._closure_cache[cname] = MT.TextInterp.closure_body(self, cname)
+        return self._closure_cache[cname]
+
+    def const(self, ctx, fr, text, ty_hint=None):
+        t = text.strip()
+        if t[:1] == '"':
+            v = self._lit_cache.get(t)
+            if v is None:
+                v = self._lit_cache[t] = MT.TextInterp.const(self, ctx, fr, text, ty_hint)
+            return v
+        return MT.TextInterp.const(self, ctx, fr, text, ty_hint)
